@@ -2,7 +2,7 @@
    Only statements; proofs are in Proofs/Cost.v.  The models (Model/Cost.v) log every modelled
    allocation: Make sz rem = make([]T, k) of sz bytes requested when rem input bytes were left,
    Grow sz = growth of a buffer driven by bytes that actually arrived (io.ReadAll, append). *)
-From WI Require Import Lib.Base Lib.Info Model.Base64 Model.Cost Model.CostPgp Proofs.Cost Proofs.CostPgp.
+From WI Require Import Lib.Base Lib.Info Model.Base64 Model.Cost Model.CostPgp Model.CostArmorVariant Proofs.Cost Proofs.CostPgp Proofs.CostArmor Proofs.CostArmorVariant.
 Open Scope N_scope.
 
 (* ---- at most the first 128 MB of any input are read, also of an endless one ---- *)
@@ -102,16 +102,16 @@ Print Assumptions C08_alloc_linear_base64.
    The typed OpenPGP packet parsers and ReadEntity are covered by the four theorems above
    (C08_alloc_linear_pgp_typed / _entity: 2400 n + 650000; C08_lengths_not_trusted_pgp_typed /
    _entity: backed or at most 65547).
-   Still missing for the full statement: (a) the armor reader: it is modelled (armor_decode: line
-   reader over the 100-octet bufio buffer, header map, base64 body, CRC-24) and tied to the
-   implementation by exact functional comparison and by the two-sided comparison of its cost
-   account with the measured allocation on every case, but its linear bound is not proved yet
-   (Proofs/CostPgp.v has the lemmas about its line reader and value buffer); (b) library
+   The armor reader (armor.Decode + io.ReadAll of the body) is covered by C08_alloc_linear_armor /
+   C08_lengths_not_trusted_armor below (106 n + 2580, no request made from a length at all) and is
+   among the components of C08_alloc_linear_with_armor (the statement of this theorem over
+   component_log_all); C08_alloc_linear_modelled joins all of them under 2400 n + 650000.
+   Still missing for the full statement: (a) library
    interiors: crypto/x509, encoding/asn1 below ParseRaw, encoding/json, encoding/pem,
    encoding/base64's stream decoder, x/crypto/ssh, putty-go, jks-go, go-rpm past the guard,
    math/big and the signature verification (crypto/rsa, crypto/dsa, crypto/ecdsa, ed25519),
    compress/flate: measured per case against 1024*n + 1 MiB and the growth clause, not modelled;
-   (c) the packet types the entity reader ignores (encrypted session keys, one-pass signatures,
+   (b) the packet types the entity reader ignores (encrypted session keys, one-pass signatures,
    compressed, encrypted and literal data) and elliptic-curve key material (elliptic.Unmarshal). *)
 Theorem C08_alloc_linear_partial : forall comp data aux l,
   bytes_ok data = true -> in_repo comp = true -> component_log comp data aux = Some l ->
@@ -128,6 +128,62 @@ Example C08_alloc_linear_nonvacuous :
   bytes_ok data = true /\ in_repo (bs "ssh1") = true /\
   exists l, component_log (bs "ssh1") data [] = Some l /\ log_cost l = 55 /\ is_ok (fst (ssh1_parse data [])) = true.
 Proof. exact alloc_linear_example. Qed.
+
+(* ---- the armor reader (internal/openpgp/armor: Decode, then io.ReadAll(block.Body)); model
+   armor_decode in Model/CostPgp.v: the line reader over the 100-octet bufio buffer, the search for a
+   BEGIN line over any number of false starts, the header map with the continuation value buffer
+   (bytes.Buffer lastValue, repair C08-A1), lineReader, the base64 stream decoder, CRC-24.
+   Proofs/CostArmor.v: amortised analysis of the value buffer with the potential 2 * capacity, for
+   any sequence of long and short header lines (armor_headers_spec holds in every state of the loop). ---- *)
+
+(* modelled allocation is linear in the input, for every input; K = 106 (header loop: key, value and
+   first piece are copies of the line, 96 per new map key, value buffer at most 3 * consumed + 64 and
+   paid twice), C = 196 (bufio) + 1872 (base64 decoder) + 512 (io.ReadAll) *)
+Theorem C08_alloc_linear_armor : forall data,
+  bytes_ok data = true -> cost_of (armor_decode data) <= 106 * lenN data + 2580.
+Proof. intros data _. exact (armor_alloc_linear data). Qed.
+Print Assumptions C08_alloc_linear_armor.
+
+(* every made-from-length request in its log is backed or at most 8 KiB ... *)
+Theorem C08_lengths_not_trusted_armor : forall data sz rem,
+  bytes_ok data = true -> In (Make sz rem) (snd (armor_decode data)) -> sz <= rem \/ sz <= 8192.
+Proof. intros data sz rem _. exact (armor_lengths_not_trusted data sz rem). Qed.
+Print Assumptions C08_lengths_not_trusted_armor.
+
+(* ... because there is none: every entry is the growth of a buffer by octets that arrived *)
+Theorem C08_armor_no_allocation_from_lengths : forall data a,
+  In a (snd (armor_decode data)) -> exists s, a = Grow s.
+Proof. exact armor_grow_only. Qed.
+Print Assumptions C08_armor_no_allocation_from_lengths.
+
+Example C08_armor_nonvacuous :
+  let data := bs "-----BEGIN PGP MESSAGE-----" ++ [10] ++ bs "Version: 1" ++ [10; 10] ++ bs "aGk=" ++ [10] ++
+              bs "=Um4c" ++ [10] ++ bs "-----END PGP MESSAGE-----" ++ [10] in
+  bytes_ok data = true /\ fst (armor_decode data) = Ok 2 /\ cost_of (armor_decode data) = 3007.
+Proof. exact armor_decode_nonvacuous. Qed.
+
+(* C08_alloc_linear_partial with the armor reader among the components (component_log_all is
+   component_log extended by "armor", "pgptyped", "pgpread"; in_repo_armor = in_repo or "armor") *)
+Theorem C08_alloc_linear_with_armor : forall comp data aux l,
+  bytes_ok data = true -> in_repo_armor comp = true -> component_log_all comp data aux = Some l ->
+  log_cost l <= 520 * lenN data + 8194 /\
+  (forall sz rem, In (Make sz rem) l -> sz <= rem \/ sz <= 8192).
+Proof. exact alloc_linear_armor_in. Qed.
+Print Assumptions C08_alloc_linear_with_armor.
+
+Example C08_alloc_linear_with_armor_nonvacuous :
+  in_repo_armor (bs "armor") = true /\ in_repo_armor (bs "der") = true /\ in_repo_armor (bs "jks") = false /\
+  exists l, component_log_all (bs "armor") (bs "-----BEGIN PGP X-----") [] = Some l /\ log_cost l = 449.
+Proof. exact alloc_linear_armor_example. Qed.
+
+(* all modelled components of the repository's own code at once (in_repo_all = in_repo_armor or
+   "pgptyped" or "pgpread"; aux carries the oracle answers of the typed parsers) *)
+Theorem C08_alloc_linear_modelled : forall comp data aux l,
+  bytes_ok data = true -> in_repo_all comp = true -> component_log_all comp data aux = Some l ->
+  log_cost l <= 2400 * lenN data + 650000 /\
+  (forall sz rem, In (Make sz rem) l -> sz <= rem \/ sz <= 65547).
+Proof. exact alloc_linear_all_in. Qed.
+Print Assumptions C08_alloc_linear_modelled.
 
 (* ---- the typed OpenPGP packet parsers (packet.Read / Reader.Next over public keys v3 and v4,
    private keys, signatures v3 and v4 with both subpacket areas and an embedded signature, user IDs,
@@ -210,3 +266,38 @@ Theorem C08_rpm_witness_refused_by_guard :
   log_trusting (snd (rpm_file rpm_witness)) = false.
 Proof. exact rpm_witness_guarded. Qed.
 Print Assumptions C08_rpm_witness_refused_by_guard.
+
+(* ---- WHAT-IF variants of the armor header loop (Model/CostArmorVariant.v) - not repository code.
+   armor_headers_v HvRepaired is the repository's loop (first theorem); the two others differ from it
+   in one statement each and allocate beyond every linear bound, on inputs on which the repository's
+   loop stays below 106 n + 128. ---- *)
+Theorem C08_armor_variant_repaired_is_model : forall f cont curlen hs r,
+  armor_headers_v HvRepaired f cont curlen hs r = armor_headers f cont curlen hs r.
+Proof. exact armor_headers_v_repaired. Qed.
+Print Assumptions C08_armor_variant_repaired_is_model.
+
+(* the loop before repair C08-A1 (p.Header[lastKey] += string(line) per piece of a long line):
+   one header line of 100 (k + 1) octets costs at least 50 k^2 *)
+Theorem C08_armor_before_repair_refuted : forall K C, exists r,
+  bytes_ok r = true /\
+  K * lenN r + C < cost_of (armor_headers_v HvPreRepair (S (length r)) false 0 (mk_hs [] 0) r) /\
+  cost_of (armor_headers (S (length r)) false 0 (mk_hs [] 0) r) <= 106 * lenN r + 128.
+Proof. exact pre_repair_superlinear. Qed.
+Print Assumptions C08_armor_before_repair_refuted.
+
+(* the repaired loop without lastValue.Reset() between header lines: k consecutive long lines (154
+   octets each) cost at least 75 k^2 *)
+Theorem C08_armor_without_reset_refuted : forall K C, exists r,
+  bytes_ok r = true /\
+  K * lenN r + C < cost_of (armor_headers_v HvNoReset (S (length r)) false 0 (mk_hs [] 0) r) /\
+  cost_of (armor_headers (S (length r)) false 0 (mk_hs [] 0) r) <= 106 * lenN r + 128.
+Proof. exact no_reset_superlinear. Qed.
+Print Assumptions C08_armor_without_reset_refuted.
+
+(* computed, through the BEGIN line: twice the input, 3.98 and 3.79 times the allocation *)
+Example C08_armor_before_repair_witness :
+  cost_of (armor_open_v HvPreRepair (w_pre 100)) = 515349 /\
+  cost_of (armor_open_v HvPreRepair (w_pre 201)) = 2050246 /\
+  cost_of (armor_open_v HvRepaired (w_pre 100)) = 16578 /\
+  cost_of (armor_open_v HvRepaired (w_pre 201)) = 48789.
+Proof. exact pre_repair_witness. Qed.
